@@ -472,7 +472,87 @@ def domain_clip(ctx):
         _rep(ctx, f, '%s offset reset before the first access' % f, bad, 'RF6-domain')
 
 
+def offset_discipline(ctx):
+    """Streaming types (domain, string) keep a read/write offset.  (1) Their Reset function stores the requested
+    offset unconditionally (the object layer rewinds with offset 0 before every buffered access and ignores the
+    result: a reset that can decline leaves a stale offset behind).  (2) A read whose copy loop can stop early on the
+    data (string terminator) advances the offset by what was copied: the stored offset must depend on a variable the
+    copy loop changes once per copied byte - a value computed from the requested size alone over-runs the string."""
+    m = ctx.m
+    NONE = m.enum('CO_ERR_NONE')
+    for f, rec in (('COTDomainReset', 'CO_OBJ_DOM'), ('COTStringReset', 'CO_OBJ_STR')):
+        m.need(f)
+        for para in (0, 7, 0xFFFFFFFF):
+            pe = PEval(m, f)
+            pe.record_sets = False
+            pe.store_filter = lambda k, fld, rec=rec: fld == (rec, 'Offset')
+            # size / start of the object left unbound: no guard on them may skip the store
+            trs = pe.run({'obj': 1, 'node': 1, 'obj->Data': 1, 'para': para})
+            bad = None
+            for t in trs:
+                vals = [e[2] for e in t.stores()]
+                if vals != [para] or t.ret != NONE:
+                    bad = 'a path stores offset %s and returns %s, required offset := %d, no refusal' % (vals, t.ret, para)
+            if not trs:
+                bad = 'no path'
+            _rep(ctx, f, '%s offset=%d' % (f, para), bad, 'RF2-offset')
+    # (2) data-dependent copy loops
+    n_loops = 0
+    for f, fld in (('COTStringRead', ('CO_OBJ_STR', 'Offset')),):
+        m.need(f)
+        g = m.cfg(f)
+        for lp in g.loops:
+            # loop whose exit test dereferences data (`*ptr != 0`)
+            datadep = False
+            for c in lp.cond_nodes:
+                for x in walk(g.nodes[c].x):
+                    if x.k == 'un' and x.op == '*':
+                        datadep = True
+            if not datadep:
+                continue
+            n_loops += 1
+            variant = set()
+            for nid in lp.nodes:
+                nd = g.nodes[nid]
+                if nd.x is None:
+                    continue
+                for x in walk(nd.x):
+                    t = None
+                    if x.k == 'un' and x.op in ('++', '--', 'post++', 'post--'):
+                        t = strip(x.kids[0])
+                    elif x.k == 'bin' and x.op.endswith('=') and x.op not in ('==', '!=', '<=', '>='):
+                        t = strip(x.kids[0])
+                    if t is not None and t.k == 'ref':
+                        variant.add(t.ref)
+            after = [nd for nd in g.nodes if nd.x is not None and nd.id not in lp.nodes and m.field_stores(nd.x, fld)]
+            inside = [nd for nd in g.nodes if nd.x is not None and nd.id in lp.nodes and m.field_stores(nd.x, fld)]
+            site = '%s: offset update after the copy loop at line %d' % (f, lp.line)
+            bad = None
+            if not after and not inside:
+                bad = 'the offset is not updated'
+            for nd in after:
+                for (l, rhs, n) in m.field_stores(nd.x, fld):
+                    deps = set(x.ref for x in walk(n.kids[1]) if x.k == 'ref' and x.refk in ('VarDecl', 'ParmVarDecl')) if n.k == 'bin' else set()
+                    # follow one level of local definitions (offset = start + copied)
+                    dfs = m.defs_of(f)
+                    more = set()
+                    for r in list(deps):
+                        u = dfs.unique_def(nd.id, r)
+                        if u is not None:
+                            more |= set(x.ref for x in walk(u[1]) if x.k == 'ref' and x.refk in ('VarDecl', 'ParmVarDecl'))
+                    if not ((deps | more) & variant):
+                        bad = '%s does not depend on any variable the copy loop advances (%s): the offset moves by the ' \
+                              'requested size even when the loop stopped at the terminator' % (show(n), 'none' if not variant else 'loop advances other variables')
+            if bad:
+                ctx.ob(P, 'RF2-offset', f, site, None)
+                ctx.find(P, 'RF2-offset', f, 'offset-not-loop-variant', m.loc(f, lp.line), '%s: %s' % (site, bad))
+            else:
+                ctx.ob(P, 'RF2-offset', f, site, 'new offset depends on a per-byte loop variable')
+    ctx.require_min(P, 'RF2-offset', n_loops, 1, 'data-dependent copy loops')
+
+
 def run(ctx):
+    offset_discipline(ctx)
     init_walk(ctx)
     search_shape(ctx)
     typed_accessors(ctx)
